@@ -187,7 +187,8 @@ func (e *Env) AuditRaw(raw *Raw, checkFast bool) int {
 		e.bad("audit|decode|fast-entry", "%s", m)
 	}
 	if len(raw.Other) > 0 {
-		e.bad("audit|keyspace|unknown-key", "storage holds keys outside every key space: %q", raw.Other[0])
+		// keys outside the node / fast / metadata / legacy key spaces are not the subject of any property
+		e.C.Obs("raw_keys_outside_known_key_spaces(recorded,not_alarmed)", len(raw.Other))
 	}
 	reached := map[codec.NK]bool{}
 	for _, v := range e.M.Versions() {
